@@ -622,13 +622,13 @@ def family(prop, t, sd):
             specs = gen.l_exhaustive(level=1)[::3] + sum([gen.l_seeded(200 * sd + k, 10000, offsets=True, satisfy=True, cont_only=(k % 2 == 1)) for k in range(6)], [])
     else:
         if t == 'quick':
-            specs = gen.l_exhaustive(cont_only=True)[::4] + gen.l_seeded(41, 3000, cont_only=True) + degenerate_family() + cycling_family()
+            specs = gen.l_exhaustive(cont_only=True)[::4] + gen.l_seeded(41, 3000, cont_only=True) + degenerate_family() + cycling_family() + tolerance_scale_family(t)
         else:
-            specs = gen.l_exhaustive(cont_only=True, level=1)[::2] + sum([gen.l_seeded(300 * sd + k, 10000, cont_only=True) for k in range(5)], []) + degenerate_family() + cycling_family()
+            specs = gen.l_exhaustive(cont_only=True, level=1)[::2] + sum([gen.l_seeded(300 * sd + k, 10000, cont_only=True) for k in range(5)], []) + degenerate_family() + cycling_family() + tolerance_scale_family(t)
         specs = [s for s in specs if s['dir'] != 'solve']
     if prop == 'C05':
         # degenerate / cycling LPs: "the simplex-based solvers always reach one of the three verdicts"
-        specs += degenerate_family() + cycling_family()
+        specs += degenerate_family() + cycling_family() + tolerance_scale_family(t)
         # 4..7-variable knapsack-like MILPs (branch-and-bound trees with more than a handful of nodes)
         import c15
         specs += c15.knapsacks(33 if t == 'quick' else 330 + sd, 150 if t == 'quick' else 1500)
@@ -715,6 +715,23 @@ def cycling_family():
     return out
 
 
+def tolerance_scale_family(t):
+    """coefficients below the 1e-5 comparison tolerance of the simplex next to right-hand sides large enough that the
+    product is not negligible (0.000005 x + y = 1 with x <= 100000): an entry the tolerant tests take for zero still
+    has to be eliminated / counted"""
+    nn = gen.D('NNReal', 0, 'inf')
+    out = []
+    tiny = [5e-6, -5e-6, 2 ** -20, 8e-6] if t == 'quick' else [5e-6, -5e-6, 2 ** -20, 8e-6, -2 ** -18, 1e-7, 3e-6]
+    for e in tiny:
+        for big in (100000, 250000):
+            for c in ('=', '<=', '>='):
+                for d in ('max', 'min'):
+                    out.append(gen.lm_spec([nn, nn], [([e, 1], c, 1), ([1, 0], '<=', big)], [1, 1] if d == 'max' else [-1, 1], d))
+                    out.append(gen.lm_spec([nn, nn, nn], [([e, 1, 1], c, 2), ([1, 0, 0], '<=', big), ([0, 1, -1], '<=', 0.5)], [1, 2, 0], d))
+                    out.append(gen.lm_spec([nn, nn], [([1, e], c, 1), ([0, 1], '<=', big), ([1, 1], '>=', 0.25)], [1, 1], d))
+    return out
+
+
 def degenerate_family():
     """degenerate vertices, ratio ties, redundant rows (classic cycling examples scaled to the alphabet)"""
     nn = gen.D('NNReal', 0, 'inf')
@@ -773,7 +790,12 @@ def main(prop):
         it = {'lm': lm_}
         if True:
             nfail += 1
-            sig = {'stage': prop, 'obligation': fail['ob'], 'solver': fail.get('solver'), 'kind': fail.get('kind'), 'engine': fail.get('engine'), 'has_free_variable': fail.get('has_free_variable'), 'msg': fail.get('msg'), 'objective_coefficient_below_1e-5': fail.get('objective_coefficient_below_1e-5'), 'lm': canon(it['lm'])}
+            # model-level facts a known finding can be keyed on: a row coefficient below the simplex's 1e-5 comparison
+            # tolerance, and whether the tableau simplex is one of the parties of the failure
+            subtol = any(0 < abs(float(x)) < 1e-5 for r in it['lm']['rows'] for x in r['a'])
+            tableau_party = prop == 'C14' or fail.get('solver') == 'slow' or 'slow' in (str(fail.get('a')), str(fail.get('b'))) or "'slow'" in str(fail.get('a')) + str(fail.get('b'))
+            sig = {'stage': prop, 'obligation': fail['ob'], 'solver': fail.get('solver'), 'kind': fail.get('kind'), 'engine': fail.get('engine'), 'has_free_variable': fail.get('has_free_variable'), 'msg': fail.get('msg'), 'objective_coefficient_below_1e-5': fail.get('objective_coefficient_below_1e-5'),
+                   'row_coefficient_below_1e-5': subtol, 'tableau_simplex_involved': bool(tableau_party), 'lm': canon(it['lm'])}
             if not ok:
                 rep.broken.append({'why': 'counterexample did not reproduce against the real code', 'sig': sig, 'detail': detail})
                 continue
